@@ -117,4 +117,106 @@ def c17(tier, seed):
         t0, machinery_error=err)
 
 
-CHECKS = {"C17": c17}
+def c15(tier, seed):
+    from checks_design import judge_build, judge_sound, judge_complete, judge_unsat, judge_raised, sample_of
+    t0 = time.time()
+    rng = random.Random(seed)
+    cov, out, err = Coverage(), [], None
+    try:
+        cases = gen.derivation_cases(rng, 30 if tier == "quick" else 600)
+        cases += common.witness_cases("C15")
+
+        def ops(c):
+            return [{"op": "synth", "strategy": SAT, "n": pipeline.CAP, "exhaust": True},
+                    {"op": "synth", "strategy": RND, "n": pipeline.CAP, "exhaust": True, "timeout": 30},
+                    {"op": "synth", "strategy": "CMSGen", "n": 3}]
+        kinds = {}
+        for batch in batches(cases, 250):
+            for r in pipeline.run_design(batch, ops, stats=cov.stats):
+                # ambiguous derivation <=> the constructor refuses (Blocks!Ambiguous)
+                if not judge_build("C15", r, out):
+                    cov.add_case(r, r.obs[0].get("status") == "rejected" and not r.nb[0])
+                    kinds["refused"] = kinds.get("refused", 0) + 1
+                    continue
+                nt = False
+                for oi in range(1, len(r.obs)):
+                    o = r.obs[oi]
+                    judge_raised("C15", r, oi, out)
+                    if o["status"] != "returned":
+                        continue
+                    judge_unsat("C15", r, oi, out)          # partial derivation => error reported, no sequences
+                    judge_sound("C15", r, oi, out)          # clauses "levels" ('' exactly off start/stride) and "derived"
+                    judge_complete("C15", r, oi, out)
+                    nt = nt or o["count"] > 0
+                if r.nb[2]:
+                    kinds["partial"] = kinds.get("partial", 0) + 1
+                    nt = True
+                else:
+                    kinds["total"] = kinds.get("total", 0) + 1
+                cov.add_case(r, nt)
+                if nt and not r.nb[2]:
+                    cov.sample(sample_of(r, 1))
+        cov.notes["case_kinds"] = kinds
+    except tlc.TLCError as e:
+        err = str(e)[:2000]
+    return common.finish("C15", tier, seed, "model_checking", out, cov.as_dict(
+        "every assignment of the 4 within-trial windows of two binary factors to {level 1, level 2, both, none} (thinned), "
+        "ElseLevel tables, transitions and windows with start before/at/after the default (None inputs) and stride 2-3, plus "
+        "seeded random tables: Blocks!Ambiguous must coincide with the constructor's refusal, Blocks!Partial with an empty "
+        "result, and for total derivations the exhausted sets of both samplers are validated/enumerated against Design.tla "
+        "(clauses levels/derived); non-trivial = refused, partial, or at least one sequence validated"), t0, machinery_error=err)
+
+
+def c14(tier, seed):
+    t0 = time.time()
+    rng = random.Random(seed)
+    cov, out, err = Coverage(), [], None
+    try:
+        cases = select_cases(tier, seed, ("flat", "blocks"), 30, 600) + gen.derivation_cases(rng, 10 if tier == "quick" else 100)
+        cases += common.witness_cases("C14")
+        for batch in batches(cases, 250):
+            obs = impl.run_tasks([(c, [{"op": "varmap", "ncand": 5 if tier == "quick" else 20, "seed": seed}]) for c in batch], op_timeout=90)
+            tcases, keep = [], []
+            for c, o in zip(batch, obs):
+                cov.evaluations += 1
+                if len(o) < 2 or o[0].get("status") != "built":
+                    continue
+                d = o[1]
+                if d.get("status") == "raised":
+                    out.append(violation("C14", "raised", c, exc=d.get("exc"), site=d.get("site"), op="varmap", detail=d.get("msg")))
+                    continue
+                if d.get("status") != "returned" or "skipped" in d:
+                    continue
+                rec = export.tlc_case(c, enum=False)
+                rec.update({k: d[k] for k in ("T", "vps", "table", "varfactors", "auxmin", "fvt_mismatch", "cands")})
+                tcases.append(rec)
+                keep.append((c, d))
+            if not tcases:
+                continue
+            path = tlc.write_cases(tcases, "varmap")
+            try:
+                r = tlc.run_with_norm("VarMap.tla", "VarMap.cfg", path, tags=("VM",), timeout=1500)
+            finally:
+                os.unlink(path)
+            cov.stats["states"] = cov.stats.get("states", 0) + r.distinct
+            cov.stats["transitions"] = cov.stats.get("transitions", 0) + r.states
+            cov.stats["traces"] = cov.stats.get("traces", 0) + sum(len(d["cands"]) for _, d in keep)
+            for rec in r.records:
+                c, d = keep[rec[1] - 1]
+                out.append(violation("C14", "varmap", c, verdict=rec[3], candidate=(d["cands"][rec[2] - 1] if rec[2] > 0 else None)))
+            for c, d in keep:
+                if len(d["table"]) > 2:
+                    cov.nontrivial.add(canon(c))
+                    cov.sample({"case": common.brief_case(c), "vps": d["vps"], "table_head": d["table"][:6], "auxmin": d["auxmin"],
+                                "candidate": d["cands"][0] if d["cands"] else None})
+    except tlc.TLCError as e:
+        err = str(e)[:2000]
+    return common.finish("C14", tier, seed, "model_checking", out, cov.as_dict(
+        "for every design of the generator space (designs rewritten by weight desugaring excluded) the table "
+        "(trial, factor, level) -> variable is recorded from _encode_variable / factor_variables_for_trial and judged by "
+        "VarMap.tla (bijection onto 1..variables_per_sample, defined exactly where Design!Applies says the factor applies, "
+        "auxiliary variables of the compiled clauses above it); random one-hot assignments are encoded with the table, decoded "
+        "by Gen.decode and compared with the chosen levels; non-trivial = table with more than 2 entries"), t0, machinery_error=err)
+
+
+CHECKS = {"C17": c17, "C15": c15, "C14": c14}
